@@ -106,8 +106,8 @@ func (p *valPool) nc(r *vlib.Rand) (error, string) {
 }
 
 // genErrVal: an error of the values classes. %w / Join wrappers are only put around errors that are never on an
-// IgnoreErrors list (bases 4..5, ncIface): whether a wrapper that pkg/errors' Cause cannot see through "is" the
-// listed error is not something the statement decides.
+// IgnoreErrors list (bases 4..5, ncIface) here; every wrapper shape around listed errors is the subject of the
+// errshapes classes (errshape.go).
 func genErrVal(r *vlib.Rand, bases []error, p *valPool) (error, string) {
 	u := 4 + r.Intn(2)
 	switch r.Intn(12) {
